@@ -29,6 +29,13 @@ Inductive case :=
    mode; when accepted, one request per endpoint through ONE router: values and observation *)
 | CConfig (a : adapter) (eps : list (list tok * list tok)) (texts : list (string * string))
           (accepted : bool) (routes : list (list string * robs))
+(* Init with the endpoint's sequential-merge flag on or off (Init's verdict does not read it) *)
+| CInitS (colon sequential : bool) (segs be : list tok) (eptext betext : string) (accepted : bool)
+(* one request with a query string through an adapter and the full default backend stack; the
+   endpoint's and the backend's own input_query_strings lists: the path the backend is called
+   with does not depend on any of the three *)
+| CRouteQ (a : adapter) (segs be : list tok) (eptext betext : string) (vals : list string)
+          (ep_qs be_qs : list string) (query : list (string * string)) (o : robs)
 (* one request through an adapter *)
 | CRoute (a : adapter) (segs be : list tok) (eptext betext : string) (vals : list string) (o : robs).
 
@@ -84,6 +91,15 @@ Definition check_case (c : case) : bool * bool :=
        forallb (fun e => spec_init_b (ph_names (fst e)) (ph_names (snd e)) acc) eps &&
        forallb (fun er => let '(e, (vals, o)) := er in spec_route_b (fst e) (snd e) vals o)
                (combine eps routes))
+  | CInitS colon sq segs be ept bet acc =>
+      (str_eqb (render_ep segs) ept && str_eqb (render be) bet &&
+       forallb seg_ok segs && forallb be_tok_ok be &&
+       Bool.eqb (accepted_b (init ept bet)) acc,
+       spec_init_b (ph_names segs) (ph_names be) acc)
+  | CRouteQ a segs be ept bet vals epq beq query o =>
+      (str_eqb (render_ep segs) ept && str_eqb (render be) bet && wf_route segs be vals &&
+       robs_eqb (serve a segs be vals) o,
+       spec_route_b segs be vals o)
   | CRoute a segs be ept bet vals o =>
       (str_eqb (render_ep segs) ept && str_eqb (render be) bet && wf_route segs be vals &&
        robs_eqb (serve a segs be vals) o,
